@@ -14,7 +14,7 @@ explanation = ('Theorems on the import state machine; correspondence: the same a
                'the property restated on the observations.')
 RULE = ('action lists of 2-6 steps over {activate, deactivate, disable, enable, import a freshly generated module}; modules: 0-3 filler statements around a declaration '
         'that is absent / deal.module_load(<1-3 contracts from pure, safe, has(markers), raises(Exc), typo, foreign name, nested attribute, keyword call>) / aliased / nested in if; '
-        'import-time behaviour: clean / prints / raises / opens a socket; non-trivial = a module with a declaration is imported while activated')
+        'import-time behaviour: clean / prints / raises / opens a socket; laid out as a single file, a package __init__.py or a submodule of a package; non-trivial = a module with a declaration is imported while activated')
 
 CONTRACTS = [
     ('deal.pure', 'CAttr "deal" "pure"', 'pure'), ('deal.safe', 'CAttr "deal" "safe"', 'safe'),
@@ -36,14 +36,13 @@ def gen_module(rnd, name):
     for p in pre: lines.append(p); body_coq.append('TOther')
     calls, arg_error = None, None
     def arg_err(cs):
-        for text, _, tag in cs:
-            if tag.startswith('unsupported:') and 'TypeError' not in tag: return tag.split(':')[1]
+        for text, _, tag in cs:     # arguments are evaluated left to right: the first that cannot be evaluated decides
+            if tag.startswith('unsupported:'): return tag.split(':')[1].rstrip('?')
         return None
     if kind == 'decl' or kind == 'two':
         lines.append('deal.module_load(' + ', '.join(c[0] for c in cs) + ')')
         body_coq.append('TLoad "deal.module_load" [' + '; '.join(c[1] for c in cs) + ']')
         calls, arg_error = len(cs), arg_err(cs)
-        if any('TypeError?' in c[2] for c in cs): arg_error = arg_error or 'TypeError'
         if kind == 'two':
             lines.append('deal.module_load(deal.safe)'); body_coq.append('TLoad "deal.module_load" [CAttr "deal" "safe"]')
     elif kind == 'alias':
@@ -78,7 +77,7 @@ def gen_case(rnd, k):
         else:
             name = f'm{k}_{j}'
             src, c, meta = gen_module(rnd, name)
-            acts.append(['import', name, src]); cq.append(f'AImport "{name}" {c}'); metas.append(meta)
+            acts.append(['import', name, src, rnd.choice(['module', 'module', 'package', 'submodule'])]); cq.append(f'AImport "{name}" {c}'); metas.append(meta)
     return acts, '[' + '; '.join(cq) + ']', metas
 
 
